@@ -156,6 +156,21 @@ class DTProxy:
         return getattr(_dt, k)
 
 
+class PDProxy:
+    """stands in for the module-level name `pd`: pd.Timestamp(x) of a symbolic instant is that instant"""
+
+    @staticmethod
+    def Timestamp(x=None, *a, **k):
+        from .symtime import SymTimestamp
+        if isinstance(x, SymTimestamp):
+            tz = k.get('tz', None)
+            return x if tz is None else (x.tz_localize(tz) if x.tz is None else x.tz_convert(tz))
+        return _pd.Timestamp(x, *a, **k) if x is not None else _pd.Timestamp(*a, **k)
+
+    def __getattr__(self, k):
+        return getattr(_pd, k)
+
+
 _SAVED = []
 
 
@@ -184,6 +199,7 @@ def install():
         return
     quiet()
     npx = NPProxy()
+    pdx = PDProxy()
     for m in _qstrader_modules():
         d = m.__dict__
         if d.get('np') is _np:
@@ -193,6 +209,10 @@ def install():
                           'qstrader.broker.portfolio.position'):
             _SAVED.append((m, 'int', d.get('int', _MISSING)))
             m.int = _int
+        if d.get('pd') is _pd and m.__name__.startswith(('qstrader.asset', 'qstrader.alpha_model', 'qstrader.exchange', 'qstrader.broker',
+                                                          'qstrader.signals', 'qstrader.portcon', 'qstrader.execution')):
+            _SAVED.append((m, 'pd', _pd))
+            m.pd = pdx
         if d.get('floor') is math.floor:
             _SAVED.append((m, 'floor', math.floor))
             m.floor = _math_floor
